@@ -248,14 +248,13 @@ theorem registered_global_full_fails : ¬ registered_global_full := by
   revert this
   decide
 
-/-! ## OpenLibs order (linit.go, regenerated) -/
+/-! ## loader chain (regenerated)
 
-/-- the package library is opened first and the base library right after it: `RegisterModule` (used by
-    every Open* function) finds registry._LOADED already installed by OpenPackage, so the standard
-    libraries land in the same package.loaded that `require` consults. -/
-theorem package_opened_first :
-    Generated.luaLibs.head? = some "OpenPackage" ∧ (Generated.luaLibs.drop 1).head? = some "OpenBase" := by
-  decide
+(Until /repo 2244ce2 the standard libraries only landed in the `package.loaded` that `require` consults because
+OpenPackage ran first and REPLACED registry._LOADED; a theorem pinned that order (`package_opened_first`).  Since the
+repair `package.loaded` IS the registry table, whatever the order: the order fact is no longer an obligation, and the
+harness checks the outcome directly — every standard library, the globals table under "_G" and the package library
+itself are in package.loaded and returned by `require` — at the start of every history.) -/
 
 /-- the regenerated loader chain: preload, then the Lua path search, nothing else. -/
 theorem loader_order : Model.loLoaders = [.preload, .lua] := Refine.loLoaders_eq
